@@ -7,8 +7,11 @@ WT="$1"; NAME="$2"; PAT="$3"
 cd "$WT" || exit 2
 export GOPROXY=off GOSUMDB=off GOTOOLCHAIN=local; unset GOFLAGS
 LOG=/tmp/adopt_$NAME.log; : > $LOG
-git diff -- . ':!MUTANT' ':!PROPERTY.json' > /tmp/adopt_$NAME.diff
-if ! diff -q <(grep -v '^index ' /tmp/adopt_$NAME.diff) <(grep -v '^index ' MUTANT/patch.diff) >/dev/null; then echo "NOTE: worktree diff differs from MUTANT/patch.diff; using the worktree diff" | tee -a $LOG; cp /tmp/adopt_$NAME.diff MUTANT/patch.diff; fi
+# the deliverable is MUTANT/patch.diff: the worktree is reset to HEAD and the patch applied afresh (agents working in parallel
+# worktrees have been seen to swap their uncommitted changes through the shared git stash)
+cp -r MUTANT /tmp/adopt_${NAME}_MUTANT.bak; git checkout -q -- . ; git clean -fdq -e MUTANT -e PROPERTY.json
+if ! git apply MUTANT/patch.diff; then echo "PATCH DOES NOT APPLY to HEAD" | tee -a $LOG; exit 2; fi
+rm -rf /tmp/adopt_${NAME}_MUTANT.bak
 /verif/mut_baseline.sh "$WT" 2>&1 | tail -3 | tee -a $LOG
 for m in hermes src/hermes2go src/calcHermesBatch src/cropfileconverter; do (cd $m && go build ./... ) || echo "BUILD FAILS in $m" | tee -a $LOG; done
 rm -f src/hermes2go/hermes2go src/calcHermesBatch/calcHermesBatch src/cropfileconverter/cropfileconverter
